@@ -49,7 +49,11 @@ def write_case(root, cfg):
         lines += ["", f"[{name}]", 'class = "LatticeEngine"', f'module = "{eng}"', 'engine = "lattice"', "timestep = 1.0",
                   "subcycles = 1", "temperature = 1.0", "left_wall = -3", "sleep = 0.0"]
     lines += ["", "[orderparameter]", 'class = "LatticeOrder"', f'module = "{orp}"', "", "[output]", 'data_dir = "./"', "screen = 0",
-              "pattern = false", "delete_old = false"]
+              f"pattern = {'true' if cfg.get('pattern') else 'false'}", "delete_old = false"]
+    if cfg.get("ee", "default") != "default":       # an explicit ensemble_engines list: one entry per ensemble, or one too few
+        k = n if cfg["ee"] == "full" else max(0, n - 1)
+        at = lines.index('load_dir = "load"')
+        lines.insert(at + 1, "ensemble_engines = " + sysdrv.toml_value([["engine"] for _ in range(k)]))
     os.makedirs(root, exist_ok=True)
     with open(os.path.join(root, "infretis.toml"), "w") as fh:
         fh.write("\n".join(lines) + "\n")
@@ -101,7 +105,7 @@ def eval_case(cfg, verdict, work):
             fails.append((f"not-rejected:{what}:{outcome}", f"configuration with {what} was {outcome.replace('raise:', 'met with ')} instead of a configuration error"))
         elif verdict == "free" and outcome.startswith("raise:"):
             fails.append((f"valid:{outcome}", f"a valid configuration made setup_config raise {outcome[6:]}: {msg}"))
-        elif verdict == "free" and outcome == "accepted" and cfg["workers"] >= 1:
+        elif verdict == "free" and outcome == "accepted" and cfg["workers"] >= 0:
             try:
                 md_items, state = isetup.setup_internal(config)
                 import copy
@@ -254,6 +258,6 @@ def main(tier, replay=None):
         print(f"  Config: {res['distinct']} states, {ncases} configurations passed to the real setup_config", flush=True)
     finally:
         common.rmtree(work)
-    chk.assumptions += ["conditions the code checks but the property does not list (QuanTIS with lambda_minus_one, workers < 1) are don't-care"]
+    chk.assumptions += ["conditions the code checks but the property does not list (QuanTIS with lambda_minus_one, a short ensemble_engines list) are don't-care for the verdict: if such a configuration is accepted it must initialise"]
     return chk.finish("the whole bounded space of the validated fields (interface lists in any order with duplicates, workers, move lists, cap, "
                       "lambda_minus_one, engine defined or not, quantis); every configuration is distinct")
